@@ -508,10 +508,15 @@ def gen_triangle(rng, max_keys=136, n_slices=None, kind=None, size="small", rest
             va, vb = rng.choice([(["int", -1], ["int", -2]), (["float", struct.pack("<d", -1.0).hex()],
                                                               ["float", struct.pack("<d", -2.0).hex()]),
                                  (["int", 0], ["int", 2305843009213693951])])
-            dn = rng.choice(["details", "loss_details"])
-            m1[dn] = [it for it in m1[dn] if it[0] != "layer_h"] + [["layer_h", va]]
-            m2 = _copy.deepcopy(m1)
-            m2[dn][-1] = ["layer_h", vb]
+            dn = rng.choice(["details", "loss_details", "limit"])
+            if dn == "limit":       # per_occurrence_limit -1.0 vs -2.0
+                m1["limit"] = struct.pack("<d", -1.0).hex()
+                m2 = _copy.deepcopy(m1)
+                m2["limit"] = struct.pack("<d", -2.0).hex()
+            else:
+                m1[dn] = [it for it in m1[dn] if it[0] != "layer_h"] + [["layer_h", va]]
+                m2 = _copy.deepcopy(m1)
+                m2[dn][-1] = ["layer_h", vb]
         elif variant == "none_vs_empty":
             a = rng.choice(META_STR_ATTRS)      # None vs "" in one attribute, nothing else differs
             m1[a] = None
@@ -619,6 +624,10 @@ def gen_triangle(rng, max_keys=136, n_slices=None, kind=None, size="small", rest
                  "prev": None, "values": [[k, gen_cell_value(rng)] for k in field_keys if rng.random() < 0.6], "meta": m}
             if kind == "IncrementalCell":
                 c["prev"] = [9999, 12, 29]
+            if rng.random() < 0.3:      # or a pre-1677 period next to ordinary dates
+                c.update({"ps": [1, 1, 1], "pe": [1, 12, 31], "ev": list(c0["ev"]) if c0 else [y0, m0, 28]})
+                if kind == "IncrementalCell":
+                    c["prev"] = [1, 6, 30]
             cells.append(c)
     # restated cells: the same metadata and coordinates twice with different values (accepted with a warning)
     if cells and rng.random() < restate_p:
